@@ -386,6 +386,22 @@ def main():
     t.append("def parserOrder : List String := " + llist([lstr(x) for x in order]) + "\n")
     t.append("end SC.Gen\n")
     changed |= write_if_changed(os.path.join(GEN, "Tables.lean"), "\n".join(t))
+
+    # ---- the tokenizers' regular expressions and the Unicode tables of the regex crate ---------
+    from tools import gen_regex as GR
+    cfg_plain = json.loads(raw)
+    try:
+        rx = GR.gen_regexes(cfg_plain, order)
+    except GR.Unsupported as e:
+        die(f"regular expression outside the translated syntax: {e}")
+    rx = ("/- GENERATED by tools/gen_regex.py from /repo/src/json/config.json (parse, alias, languages.*.alias, month names,\n"
+          "   type_group) and the parser order of TOKEN_REGEX_PARSER — do not edit. -/\nimport SC.Regex\n") + rx
+    changed |= write_if_changed(os.path.join(GEN, "Regexes.lean"), rx)
+    sig = GR.unicode_signature(REPO, C.SCIMPL)
+    upath = os.path.join(GEN, "Unicode.lean")
+    have = open(upath, encoding="utf-8").read(600) if os.path.exists(upath) else ""
+    if f"signature: {sig}" not in have:
+        changed |= write_if_changed(upath, GR.gen_unicode(C.SCIMPL, sig))
     print("translator ok;", "files updated" if changed else "no change", f"({len(pats)} patterns, {len(cur_rows)} currencies)")
 
 
